@@ -8,9 +8,11 @@ dropping something, the sink received an entry.  `Spec.accept` is written from t
 has begun to drop and (every flush guard has begun to drop or some force-flush guard has begun to drop);
 its contents are the entry as last mutated and the slot values demanded by C13; whenever nothing is in
 flight and the owner, all handles and (all flush guards or one force-flush guard) are gone, the entry has
-been appended.  Theorems `c06_spec_accepts` / `c13_spec_accepts` (Props) show that every schedule of the
-micro-step model produces only accepted histories; the harness evaluates the same `accept` on histories
-recorded from real threads.
+been appended.  The clauses correspond one by one to theorems about the micro-step model
+(`c06_at_most_once`, `c06_not_early`, `c06_not_late`, `c06_content`, `c13_wait_never_lost`,
+`c13_closed_iff_sent`, `c13_not_sent`); a formal refinement "every schedule of the model yields an accepted
+history" is NOT proved (see notes/C06.md).  The harness evaluates `accept` on histories recorded from real
+threads and compares its verdict with an independently written Rust oracle.
 -/
 namespace KeepAlive.Spec
 
